@@ -4,7 +4,7 @@
     the chain follower yields at most [fuel] = len(FAT) clusters, each of them an index of the FAT; a chain reported
     complete is a genuine chain.  Work of a listing is therefore bounded by len(FAT) x slots per cluster. *)
 From Coq Require Import ZArith List Bool.
-From PyFatV Require Import Base.Bytes Base.PyEnv Gen.Pure Model.Codec Model.Dir Model.FS Proofs.FatTable.
+From PyFatV Require Import Base.Bytes Base.PyEnv Gen.Pure Model.Codec Model.Dir Model.FS Proofs.FatTable Proofs.Device Proofs.DirCodec Proofs.DirState.
 Import ListNotations.
 Open Scope Z_scope.
 
@@ -19,3 +19,8 @@ Example C13_cycle : chain_go 5 12 [4088; 4095; 2; 0; 0] 2 = ([2; 2; 2; 2; 2], fa
 Proof. vm_compute. reflexivity. Qed.
 Example C13_out_of_range : chain_go 5 12 [4088; 4095; 7; 0; 0] 2 = ([2], false).
 Proof. vm_compute. reflexivity. Qed.
+
+(** a chain the follower reports complete never visits a cluster twice (a cycle always ends in "not ok") *)
+Theorem C13_complete_chain_nodup : forall f t fat i l, chain_go f t fat i = (l, true) -> NoDup l.
+Proof. exact chain_go_nodup. Qed.
+Print Assumptions C13_complete_chain_nodup.
